@@ -83,7 +83,7 @@ def run(ctx) -> None:
     for k, v in enumerate(progs):
         org = 0x008000 if k % 3 else 0x00FFFE   # some programs run across a bank end
         # the two table files swap their contents from one program to the next (one path, different tables, one process)
-        tabs = v["tables"] if (k // 2) % 2 == 0 else list(reversed(v["tables"]))
+        tabs = v["tables"] if (k // 2) % 2 == 0 else [v["tables"][1], v["tables"][0]] + v["tables"][2:]
         ptasks.append({"items": v["items"], "tables": tabs, "org": org, "scope_style": ("block", "named", "macro")[k % 3]})
     pres = pool.map("table_program", ptasks, timeout=60)
     for k, (t, o) in enumerate(zip(ptasks, pres)):
